@@ -38,6 +38,7 @@ EXTENDS VerifLib, Integers
 CONSTANTS Kind,        \* "req" or "resp"
           Norm,        \* TRUE: header names are normalised
           Spellings,   \* spellings of names used by Set/Add/Del
+          Typed,       \* enabled groups of typed setters: subset of {"framing", "cookie", "slot"}
           MaxH         \* bound on Len(st.h) and Len(st.cookies)
 
 VARIABLES st, op
@@ -249,13 +250,17 @@ SetContentEncoding(v) == Kind = "resp" /\ st' = [st EXCEPT !.ce = v] /\ op' = Op
 \* request cookies: name/value; response cookies: name / whole Set-Cookie value
 CookieArgs == IF Kind = "req" THEN {<<"k", "9">>, <<"j", "8">>} ELSE {<<"k", "k=9">>, <<"j", "j=8; path=/">>}
 
-TypedOps == \/ \E n \in {5, -1} : SetContentLength(n)
-            \/ SetContentType("t1")
-            \/ SetConnectionClose \/ ResetConnectionClose
-            \/ \E c \in CookieArgs : SetCookie(c[1], c[2])
-            \/ \E k \in {"k", "j"} : DelCookie(k)
-            \/ DelAllCookies
-            \/ SetHost("h1") \/ SetUserAgent("u1") \/ SetServer("s1") \/ SetContentEncoding("gzip")
+\* Typed selects which groups of typed setters are enabled ("framing", "cookie", "slot")
+TypedOps == \/ /\ "framing" \in Typed
+               /\ \/ \E n \in {5, -1} : SetContentLength(n)
+                  \/ SetConnectionClose \/ ResetConnectionClose
+            \/ /\ "cookie" \in Typed
+               /\ \/ \E c \in CookieArgs : SetCookie(c[1], c[2])
+                  \/ \E k \in {"k", "j"} : DelCookie(k)
+                  \/ DelAllCookies
+            \/ /\ "slot" \in Typed
+               /\ \/ SetContentType("t1")
+                  \/ SetHost("h1") \/ SetUserAgent("u1") \/ SetServer("s1") \/ SetContentEncoding("gzip")
 
 Next == \/ \E sp \in Spellings : \/ \E v \in ValsFor(sp) : Set(sp, v) \/ Add(sp, v)
                                  \/ Del(sp)
